@@ -709,6 +709,68 @@ func (c18) RunCase(c fw.Case, env *fw.Env) *fw.CaseResult {
 			_ = before
 		}
 	}
+	// ---- stray parameter blocks: a property of one index type that also carries the (unvalidated,
+	// ignored) parameter block of another type with a different dimension. Whatever the server does
+	// with the creation, the dimension of the index is the one of its declared type: a vector of the
+	// stray length is certainly invalid, and no later search may reach a distance kernel with operands
+	// of different lengths.
+	if c.Int("slice", 0)%2 == 1 {
+		vam := func(dim int) map[string]any {
+			return map[string]any{"vectorSize": dim, "distanceMetric": "euclidean", "searchSize": 75, "degreeBound": 64, "alpha": 1.2}
+		}
+		flat := func(dim int) map[string]any { return map[string]any{"vectorSize": dim, "distanceMetric": "euclidean"} }
+		for _, o := range []struct {
+			id, typ string
+			prop    map[string]any
+		}{
+			{"strayf", "vectorFlat", map[string]any{"type": "vectorFlat", "vectorFlat": flat(3), "vectorVamana": vam(2)}},
+			{"strayv", "vectorVamana", map[string]any{"type": "vectorVamana", "vectorVamana": vam(3), "vectorFlat": flat(2)}},
+			{"strayf5", "vectorFlat", map[string]any{"type": "vectorFlat", "vectorFlat": flat(3), "vectorVamana": vam(5), "string": map[string]any{"caseSensitive": true}}},
+		} {
+			resp := s.cl.Do("POST", "/v2/collections", map[string]any{"id": o.id, "indexSchema": map[string]any{"v": o.prop}})
+			if resp.Status >= 500 {
+				ct := c18tmpl{name: "v2-create-" + o.id, method: "POST", path: "/v2/collections", body: map[string]any{"id": o.id, "indexSchema": map[string]any{"v": o.prop}}, mutating: true}
+				raw, ctype, _ := s.encode(ct.body, false)
+				s.send(ct, "stray-parameter-block", raw, ctype, nil, false, true)
+			}
+			if resp.Status != 200 {
+				continue
+			}
+			s.base = s.digest()
+			s.res.Stat("collections_with_stray_parameter_blocks", 1)
+			stray := []any{0.25, 0.5}
+			if o.id == "strayf5" {
+				stray = []any{0.1, 0.2, 0.3, 0.4, 0.5}
+			}
+			right := []any{0.1, 0.2, 0.3}
+			pt := func(id string, v []any) map[string]any {
+				return map[string]any{"points": []any{map[string]any{"_id": id, "v": v}}}
+			}
+			ins := func(desc, id string, v []any, invalid bool) {
+				t := c18tmpl{name: "v2-insert-" + o.id, method: "POST", path: "/v2/collections/" + o.id + "/points", body: pt(id, v), mutating: true}
+				raw, ctype, _ := s.encode(t.body, false)
+				s.send(t, desc, raw, ctype, nil, invalid, true)
+				s.base = s.digest()
+			}
+			ins("stray-block:right-length-insert", "0d0d0d0d-0000-4000-8000-000000000001", right, false)
+			ins("stray-block:vector-of-the-stray-length", "0d0d0d0d-0000-4000-8000-000000000002", stray, true)
+			upd := c18tmpl{name: "v2-update-" + o.id, method: "PUT", path: "/v2/collections/" + o.id + "/points", body: pt("0d0d0d0d-0000-4000-8000-000000000001", stray), mutating: true}
+			raw, ctype, _ := s.encode(upd.body, false)
+			s.send(upd, "stray-block:update-with-the-stray-length", raw, ctype, nil, true, true)
+			s.base = s.digest()
+			for _, qv := range [][]any{right, stray} {
+				opts := map[string]any{"vector": qv, "operator": "near", "limit": 5}
+				if o.typ == "vectorVamana" {
+					opts["searchSize"] = 75
+				}
+				t := c18tmpl{name: "v2-search-" + o.id, method: "POST", path: "/v2/collections/" + o.id + "/points/search", body: map[string]any{"query": map[string]any{"property": "v", o.typ: opts}, "limit": 5}}
+				raw, ctype, _ := s.encode(t.body, false)
+				s.send(t, fmt.Sprintf("stray-block:search-with-length-%d", len(qv)), raw, ctype, nil, len(qv) != 3, true)
+			}
+			s.cl.Do("DELETE", "/v2/collections/"+o.id, nil)
+			s.base = s.digest()
+		}
+	}
 	// ---- a msgpack client can carry non-finite numbers in non-vector fields; the
 	// write passes validation, so reading the point back passes validation too
 	if c.Int("slice", 0)%2 == 1 {
